@@ -83,6 +83,8 @@ Inductive schema :=
 
 Inductive justification :=
 | Justified (s : schema) (why : string)
+| JustifiedBy (thm : string) (why : string)   (* a theorem of another property's development, cited through a
+                                                 corollary registered in Proofs/ProgP.v:citations *)
 | Unjustified (reason : string)         (* no schema: correspondence-only for this site *)
 | Refuted (clause : string).            (* the promise is false: a finding *)
 
@@ -106,14 +108,15 @@ Definition entry_has_site (sites : list site) (e : jentry) : bool :=
 Definition just_of (table : list jentry) (s : site) : option justification :=
   match find (entry_matches s) table with Some e => Some (j_just e) | None => None end.
 
-(* (sites, promising, justified by a schema, unjustified, refuted) *)
+(* (sites, promising, justified by a schema, justified by a cited theorem, unjustified, refuted) *)
 Definition site_counts (dflt : flagv * flagv * flagv) (table : list jentry) (sites : list site)
-  : Z * Z * Z * Z * Z :=
+  : Z * Z * Z * Z * Z * Z :=
   let prom := filter (site_promises dflt) sites in
   let cnt (p : justification -> bool) :=
     Z.of_nat (length (filter (fun s => match just_of table s with Some j => p j | None => false end) prom)) in
   (Z.of_nat (length sites), Z.of_nat (length prom),
    cnt (fun j => match j with Justified _ _ => true | _ => false end),
+   cnt (fun j => match j with JustifiedBy _ _ => true | _ => false end),
    cnt (fun j => match j with Unjustified _ => true | _ => false end),
    cnt (fun j => match j with Refuted _ => true | _ => false end)).
 
@@ -137,7 +140,7 @@ Definition site_justification : list jentry := [
   J "_common.py" "_dot" 4 KGcxs ARaw FDefault FDefault
     (Unjustified "ndarray @ csc via transposed csr kernel (read; not modelled)");
   J "_common.py" "_dot" 5 KCoo ARaw FFalse FFalse
-    (Unjustified "coo @ coo kernel emits each (row, col) once per row via the same linked list as csr @ csr; distinctness holds (rows disjoint, one emission per touched column), order does not and is not promised (sorted=False)");
+    (JustifiedBy "C04.spcoo_den" "coo @ coo kernel: the emitted (row, col) pairs are pairwise distinct (NoDup), the promise has_duplicates=False; order is not promised (sorted=False)");
   J "_common.py" "_dot" 6 KCoo ARaw FTrue FFalse
     (Unjustified "coo @ ndarray sparse kernel: output rows in order of a's sorted rows, columns 0..n-1 (read; not modelled)");
   J "_common.py" "_dot" 7 KCoo ARaw FTrue FFalse
@@ -148,9 +151,9 @@ Definition site_justification : list jentry := [
     (Justified EmptyCoords "np.empty((ndim, 0))");
   (* ---- _compressed/common.py *)
   J "_compressed/common.py" "concatenate" 1 KGcxs ARaw FDefault FDefault
-    (Unjustified "indptr splicing of GCXS blocks (model of C09; judged at run time)");
+    (JustifiedBy "C09.indptr_splice_wf" "indptr of the joined GCXS = splice of the members' indptr: starts at 0, non-decreasing, ends at the total nnz, one entry per joined row + 1; indices/data are the members' concatenated (rows unchanged)");
   J "_compressed/common.py" "stack" 1 KGcxs ARaw FDefault FDefault
-    (Unjustified "indptr splicing of GCXS blocks (model of C09; judged at run time)");
+    (JustifiedBy "C09.indptr_splice_wf" "indptr of the stacked GCXS = splice of the members' indptr (as concatenate)");
   (* ---- _compressed/compressed.py *)
   J "_compressed/compressed.py" "CSC.__init__" 0 KSuper AMaybeRaw FDefault FDefault
     (Unjustified "forwards its argument to GCXS.__init__ unchanged; the promise is the caller's");
@@ -167,11 +170,11 @@ Definition site_justification : list jentry := [
   J "_compressed/compressed.py" "GCXS._2d_transpose" 0 KGcxs ARaw FDefault FDefault
     (Justified SharesArraysOfWf "same arrays, shape reversed, compressed axis flipped");
   J "_compressed/compressed.py" "GCXS._reduce_return" 0 KGcxs ARaw FDefault FDefault
-    (Unjustified "1-d result of a grouped reduction: indices are the group heads of sorted rows (cf. GroupHeads for COO); GCXS reduction not modelled here");
+    (JustifiedBy "C03.gcxs_reduce_den_partial" "the GCXS reduction returns a canonical, pruned result (rres_wf) for every axis argument inside its clauses gcxs_axes_nonempty / gcxs_axes_distinct");
   J "_compressed/compressed.py" "GCXS.change_compressed_axes" 0 KGcxs AMaybeRaw FDefault FDefault
-    (Unjustified "arrays computed by _transpose/_from_coo conversion (model of C05; judged at run time). The new indptr ends at nnz, so its dtype must hold max(new compressed extents, nnz): the bound of _transpose is extracted into Gen/S_convert.v and Props/C05.v:change_axes_fits proves indices, row numbers and indptr fit it; here the narrow-index join sequences of the campaign (nnz crossing 127/255) judge indptr at run time");
+    (JustifiedBy "C05.change_axes_wf" "arrays computed by _transpose: gcxs_wfb of the result, and (C05.change_axes_fits) indices, row numbers and indptr fit the dtype bound max(new compressed extents, nnz) extracted into Gen/S_convert.v");
   J "_compressed/compressed.py" "GCXS.from_coo" 0 KGcxs AMaybeRaw FDefault FDefault
-    (Unjustified "arrays computed by _from_coo conversion (model of C05; judged at run time)");
+    (JustifiedBy "C05.gcxs_from_coo_wf" "arrays computed by _from_coo from a canonical COO: gcxs_wfb for every valid compressed-axes choice");
   J "_compressed/compressed.py" "GCXS.from_scipy_sparse" 0 KGcxs ARaw FDefault FDefault
     (Unjustified "the SciPy matrix is first canonicalised by _canonical_scipy (scipy's sum_duplicates() unless has_canonical_format): sorted, duplicate-free rows are established by the external library (believed, cf. from_scipy_wf_when_rows_sorted); judged at run time");
   J "_compressed/compressed.py" "GCXS.reshape" 0 KGcxs AMaybeRaw FDefault FDefault
@@ -219,12 +222,12 @@ Definition site_justification : list jentry := [
   J "_coo/indexing.py" "getitem" 0 KCoo ARaw FTrue FFalse
     (Unjustified "structured-dtype field index: selection of the entries followed by np.where's row-major trailing indices (read; record dtypes are outside the harness)");
   J "_coo/indexing.py" "getitem" 1 KCoo ARaw (FExpr "sorted") FFalse
-    (Unjustified "sorted = no negative step and (no index array or a single leading one): selection of entries, each kept axis mapped by the increasing c |-> (c - start) // step, integer axes dropped (constant on the selection), None axes constant; blocks per index-array position (cf. FilterOfCanonical, InjectiveMonotoneMap, FromSortedOffsetConcat); the composition is the model of C02; judged at run time");
+    (JustifiedBy "C02.coo_getitem_den" "basic indices: the result is canonical with the sorted= expression of the source; one index array: C02.coo_getitem_one_array_partial (inside its clause d29)");
   (* ---- _io.py *)
   J "_io.py" "load_npz" 0 KCoo ARaw FTrue FFalse
-    (Unjustified "external promise: the file is believed to hold what save_npz wrote");
+    (JustifiedBy "C14.npz_roundtrip_exact" "for an archive written by save_npz from a well-formed array the loaded arrays are the saved ones (external promise for any other file; damaged archives are rejected: C14.npz_damaged_rejected)");
   J "_io.py" "load_npz" 1 KGcxs ARaw FDefault FDefault
-    (Unjustified "external promise: the file is believed to hold what save_npz wrote");
+    (JustifiedBy "C14.npz_roundtrip_exact" "as for COO: the members written by save_npz come back unchanged");
   (* ---- _umath.py *)
   J "_umath.py" "_Elemwise._get_func_coords_data" 0 KCoo ARaw FTrue FFalse
     (Unjustified "internal temporary, knowingly unsorted (source comment `Not really sorted but we need the sortedness`); never returned; consumers re-sort by argsort");
@@ -237,7 +240,7 @@ Definition site_justification : list jentry := [
   J "_umath.py" "_Elemwise.get_result" 1 KCoo ARaw FDefault FFalse
     (Justified MergeOfDisjointSorted "one block per matched/unmatched class of the operands; classes are pairwise disjoint by construction (matched coordinates are removed from the unmatched blocks); the constructor sorts");
   J "_umath.py" "broadcast_to" 0 KCoo ARaw (FExpr "sorted") FFalse
-    (Unjustified "cartesian expansion of the entries over the broadcast axes; sorted iff the non-broadcast axes are adjacent (model of C01/C08; judged at run time)")
+    (JustifiedBy "C08.broadcast_to_den" "result canonical for every target NumPy accepts; the sorted= rule (non-broadcast axes adjacent) is sound: C08.broadcast_to_sorted_rule_sound")
 ].
 
 Close Scope string_scope.
